@@ -12,6 +12,7 @@ import (
 	"os"
 	"path/filepath"
 	"sync"
+	"sync/atomic"
 	"time"
 
 	"github.com/tjfoc/gmsm/gmtls"
@@ -69,9 +70,12 @@ func loadFixtures() (*fixtures, error) {
 // ---------------------------------------------------------------- records
 
 type record struct {
-	hdr  [5]byte
-	body []byte
+	hdr   [5]byte
+	body  []byte
+	order int64 // global arrival order at the interposer (both directions)
 }
+
+var recOrder int64
 
 func (r *record) bytes() []byte { return append(append([]byte(nil), r.hdr[:]...), r.body...) }
 func (r *record) typ() byte     { return r.hdr[0] }
@@ -119,6 +123,7 @@ func (d *mitmDir) pump() {
 			}
 			return
 		}
+		r.order = atomic.AddInt64(&recOrder, 1)
 		d.seen = append(d.seen, r)
 		if d.hold {
 			d.held = append(d.held, r)
@@ -133,6 +138,8 @@ func (d *mitmDir) pump() {
 		d.mu.Unlock()
 		for _, o := range out {
 			if _, err := d.to.Write(o.bytes()); err != nil {
+				// the receiving end is gone: the sender must see that too (as on a real socket)
+				d.from.Close()
 				return
 			}
 		}
@@ -196,18 +203,26 @@ func runHandshake(cli, srv *gmtls.Conn, timeout time.Duration) hsResult {
 		defer func() {
 			if p := recover(); p != nil {
 				res.cliPanic = p
+				cli.Close()
 			}
 		}()
 		res.cliErr = cli.Handshake()
+		if res.cliErr != nil {
+			cli.Close() // what an application does after a failed handshake; lets the peer see the end of the stream
+		}
 	}()
 	go func() {
 		defer wg.Done()
 		defer func() {
 			if p := recover(); p != nil {
 				res.srvPanic = p
+				srv.Close()
 			}
 		}()
 		res.srvErr = srv.Handshake()
+		if res.srvErr != nil {
+			srv.Close()
+		}
 	}()
 	done := make(chan struct{})
 	go func() { wg.Wait(); close(done) }()
